@@ -98,6 +98,16 @@ Theorem C12_grid_roundtrip : forall (F : Type) (parse_float : str -> option F) (
 Proof. intros F pf prf zero one H1 H2 H3. exact (grid_roundtrip F pf prf zero H1 H2 H3 one). Qed.
 Print Assumptions C12_grid_roundtrip.
 
+(* ... and a graph space: every node (volume, environment) and edge (end nodes, contact surface, distance) with its own units
+   system, which the writers state only when it differs from the graph's and the readers otherwise inherit *)
+Theorem C12_graph_roundtrip : forall (F : Type) (parse_float : str -> option F) (print_float : F -> str) (zero one : F),
+  (forall x, parse_float (print_float x) = Some x) -> (forall x, existsb is_space (print_float x) = false) ->
+  (forall x, print_float x <> nil) ->
+  forall parent (g : graph_obj F), wf_graph_obj F g ->
+  exists g', read_graph F parse_float zero one parent (write_graph F print_float wr g) = Ok g' /\ graph_equiv F g g'.
+Proof. intros F pf prf zero one H1 H2 H3. exact (graph_roundtrip F pf prf zero H1 H2 H3 one). Qed.
+Print Assumptions C12_graph_roundtrip.
+
 (* what the writers put into the dictionaries reads back: every quantity is written as str(UnitValue) (C18) ... *)
 Theorem C12_quantity_text : forall (F : Type) (parse_float : str -> option F) (print_float : F -> str) (zero : F),
   (forall x, parse_float (print_float x) = Some x) -> (forall x, existsb is_space (print_float x) = false) ->
